@@ -222,6 +222,33 @@ def uniform_axis_params(rng, dyadic=True):
     return xmin, xmax, n, dx, (bl, br)
 
 
+def touch(p, rng):
+    """Read some freshly computed attributes of p and overwrite the returned arrays (a careless caller)."""
+    log = []
+    for _ in range(rng.randint(1, 4)):
+        what = rng.choice(['cell_sides', 'cell_sizes_vecs', 'stride', 'extent', 'cell_volume', 'fracs', 'grid_pts'])
+        if what == 'cell_sides':
+            arr = [p.cell_sides] if p.ndim else []
+        elif what == 'cell_sizes_vecs':
+            arr = list(p.cell_sizes_vecs)
+        elif what == 'stride':
+            arr = [p.grid.stride]
+        elif what == 'extent':
+            arr = [p.extent, p.grid.extent]
+        elif what == 'grid_pts':
+            arr = [p.grid.min_pt, p.grid.max_pt, p.mid_pt]
+        elif what == 'fracs':
+            p.boundary_cell_fractions
+            arr = []
+        else:
+            p.cell_volume
+            arr = []
+        for a_ in arr:
+            a_[...] = -7.0
+        log.append(what)
+    return log
+
+
 # ------------------------------------------------------------ case families
 def correspondence(rng, tier):
     import odl
@@ -345,10 +372,20 @@ def correspondence(rng, tier):
     for _ in range(420 * N):
         p = rand_part(rng)
         py, cq = rand_iexpr(rng, p.shape)
+        hist = touch(p, rng) if rng.random() < 0.3 else None
+        plit = part_lit(p)
         out = impl(lambda: p[py])
         same = (not isinstance(out[1], str)) and obs_lit(out[1]) == obs_lit(p)
-        add('OGet %s (%s)' % (part_lit(p), cq), out,
-            {'op': 'getitem', 'part': repr(p), 'idx': repr(py), 'impl': str(out[1])[:60]}, trivial=same)
+        add('OGet %s (%s)' % (plit, cq), out,
+            {'op': 'getitem', 'part': repr(p), 'idx': repr(py), 'impl': str(out[1])[:60], 'touched': hist}, trivial=same)
+        if hist is not None:
+            # the source partition is what it was, whatever was read / overwritten / derived from it
+            if not isinstance(out[1], str):
+                touch(out[1], rng)
+            add('OInit %s %s %s' % (C.qs(p.min_pt.tolist()), C.qs(p.max_pt.tolist()),
+                                    C.qss([v.tolist() for v in p.coord_vectors])),
+                ('IPart %s' % obs_lit(p, rng.sample(OBS_ATTRS, len(OBS_ATTRS))), p),
+                {'op': 'history-after-getitem', 'part': repr(p), 'idx': repr(py), 'touched': hist})
 
     # ---- OInsert / OAppend
     for _ in range(40 * N):
@@ -360,6 +397,10 @@ def correspondence(rng, tier):
                 {'op': 'append', 'part': repr(p), 'nparts': len(parts)}, trivial=not parts)
         else:
             i = rng.randint(-p.ndim - 1, p.ndim + 1)
+            if rng.random() < 0.3:
+                touch(p, rng)
+                for t in parts:
+                    touch(t, rng)
             out = impl(lambda: p.insert(i, *parts))
             add('OInsert %s %s %s' % (part_lit(p), z(i), parts_lit(parts)), out,
                 {'op': 'insert', 'part': repr(p), 'index': i, 'nparts': len(parts)}, trivial=not parts)
@@ -369,9 +410,16 @@ def correspondence(rng, tier):
         nd = rng.choice([1, 2, 3, 4])
         p = mkpart([rand_axis(rng, 4, n=rng.choice([1, 1, 2, 3])) for _ in range(nd)])
         py, cq = rand_axsel(rng, nd)
+        hist = touch(p, rng) if rng.random() < 0.3 else None
         out = impl(lambda: p.squeeze(py))
         add('OSqueeze %s (%s)' % (part_lit(p), cq), out,
-            {'op': 'squeeze', 'part': repr(p), 'axis': repr(py)})
+            {'op': 'squeeze', 'part': repr(p), 'axis': repr(py), 'touched': hist})
+        if hist is not None and not isinstance(out[1], str):
+            touch(out[1], rng)
+            add('OInit %s %s %s' % (C.qs(p.min_pt.tolist()), C.qs(p.max_pt.tolist()),
+                                    C.qss([v.tolist() for v in p.coord_vectors])),
+                ('IPart %s' % obs_lit(p, rng.sample(OBS_ATTRS, len(OBS_ATTRS))), p),
+                {'op': 'history-after-squeeze', 'part': repr(p), 'touched': hist})
     for _ in range(60 * N):
         nd = rng.choice([1, 2, 3, 4])
         p = mkpart([rand_axis(rng, 4) for _ in range(nd)])
@@ -764,6 +812,64 @@ def probes(rng, tier):
         e_hi = repr(hi) if give_max else 'c[-1] + (c[-1] - b[-2])'
         probe('fromgrid-default-limits', 'uniform_partition_fromgrid: given limits are used, else the outermost nodes are cell midpoints',
               _PRE + "p = odl.uniform_partition_fromgrid(odl.RectGrid(%r)%s)\n" % (list(c), kw) + chk % (e_lo, e_hi, list(c)))
+
+    # -- P9 several partitions on ONE grid object: each reports its own cell sides / volume, whatever was read before
+    shared = (
+        "def sides_ok(p):\n"
+        "    s = p.cell_sides\n"
+        "    ok = True\n"
+        "    for ax in range(p.ndim):\n"
+        "        n = p.shape[ax]; c = p.coord_vectors[ax]\n"
+        "        want = p.extent[ax] if n == 1 else (c[-1] - c[0]) / (n - 1)\n"
+        "        ok = ok and abs(s[ax] - want) <= 1e-12 * max(1.0, abs(want))\n"
+        "    return bool(ok and abs(p.cell_volume - float(np.prod(s))) <= 1e-12 * max(1.0, abs(p.cell_volume)))\n"
+        "ok = True; observed = []\n"
+        "for k in order:\n"
+        "    ok = ok and sides_ok(parts[k]); observed.append((k, parts[k].cell_sides.tolist(), parts[k].extent.tolist()))\n")
+    for _ in range(25 * N):
+        nd = rng.choice([1, 2, 3])
+        css = []
+        for _a in range(nd):
+            n = rng.choice([1, 1, 2, 3])
+            c0 = rng.choice([-1.0, 0.0, 0.5])
+            st = rng.choice(STEPS)
+            css.append([c0 + i * st for i in range(n)])
+        K = rng.choice([2, 3])
+        lims = [([c[0] - rng.choice(DY) for c in css], [c[-1] + rng.choice(DY) for c in css]) for _k in range(K)]
+        order = [rng.randrange(K) for _o in range(rng.randint(K, 3 * K))]
+        ctor = rng.choice(["odl.RectPartition(odl.IntervalProd(lo, hi), g)",
+                           "odl.uniform_partition_fromgrid(g, min_pt=lo, max_pt=hi)"])
+        src = (_PRE + "g = odl.RectGrid(*%r)\nparts = [%s for lo, hi in %r]\norder = %r\n" % (css, ctor, lims, order) + shared)
+        probe('shared-grid-cell-sides', 'partitions sharing one RectGrid each report their own cell_sides / cell_volume '
+              '(length-1 axes: the extent), in any read order', src)
+
+    # -- P10 aliasing: writing into an array handed out by an attribute must not change any partition on that grid
+    snap = ("def snap(t):\n"
+            "    return repr((t.min_pt.tolist(), t.max_pt.tolist(), [v.tolist() for v in t.coord_vectors],\n"
+            "                 [v.tolist() for v in t.cell_boundary_vecs], [v.tolist() for v in t.cell_sizes_vecs],\n"
+            "                 t.cell_sides.tolist(), t.grid.stride.tolist(), t.extent.tolist(), t.cell_volume,\n"
+            "                 t.boundary_cell_fractions, t.nodes_on_bdry_byaxis, t.grid.min_pt.tolist(), t.grid.max_pt.tolist()))\n")
+    getters = [('cell_sides', 'p.cell_sides'), ('cell_sizes_vecs', 'p.cell_sizes_vecs'), ('grid.stride', 'p.grid.stride'),
+               ('extent', 'p.extent'), ('grid.extent', 'p.grid.extent'), ('grid.min_pt', 'p.grid.min_pt'),
+               ('grid.max_pt', 'p.grid.max_pt'), ('mid_pt', 'p.mid_pt'), ('grid.mid_pt', 'p.grid.mid_pt'),
+               ('points', 'p.points()'), ('cell_boundary_vecs', 'p.cell_boundary_vecs'),
+               ('set-limits', 'p.min_pt'), ('set-limits', 'p.max_pt'), ('set-limits', 'p.min()'), ('set-limits', 'p.max()'),
+               ('coord_vectors', 'p.coord_vectors'), ('coord_vectors', 'p.meshgrid')]
+    for name, expr in getters:
+        for _ in range(N):
+            css = [[0.0, 1.0, 2.5][:rng.choice([1, 2, 3])], [5.0, 5.5][:rng.choice([1, 2])]]
+            lims = [([c[0] - rng.choice(DY) for c in css], [c[-1] + rng.choice(DY) for c in css]) for _k in range(2)]
+            warm = rng.random() < 0.5
+            src = (_PRE + snap + "g = odl.RectGrid(*%r)\n" % (css,) +
+                   "p, q = [odl.RectPartition(odl.IntervalProd(lo, hi), g) for lo, hi in %r]\n" % (lims,) +
+                   ("snap(p); snap(q)\n" if warm else "") +
+                   "fresh = [odl.RectPartition(odl.IntervalProd(lo, hi), odl.RectGrid(*%r)) for lo, hi in %r]\n" % (css, lims) +
+                   "expected = (snap(fresh[0]), snap(fresh[1]))\n"
+                   "a = %s\n"
+                   "for arr in (a if isinstance(a, (tuple, list)) else [a]):\n"
+                   "    try:\n        arr[...] = 123.0\n    except ValueError:\n        pass          # read-only arrays are fine\n"
+                   "observed = (snap(p), snap(q)); ok = observed == expected\n" % expr)
+            probe('aliasing-' + name, 'writing into the array returned by %s changes no observable of any partition on that grid' % expr, src)
 
     # -- P6 every consistent subset of (min_pt, max_pt, shape, cell_sides) gives the same partition
     for _ in range(40 * N):
